@@ -109,3 +109,40 @@ Proof.
       replace (N.to_nat (k - vlen v)) with (S (N.to_nat (k - (vlen v + 1)))) by lia.
       reflexivity.
 Qed.
+
+(* more Vec operations *)
+Definition pv_last {A} (v : pvec A) : option A :=
+  if N.eqb (vlen v) 0 then None else NM.find (vlen v - 1) (vmap v).
+
+(* Vec::swap_remove(k): the last element takes position k; None = out of range (panic) *)
+Definition pv_swap_remove {A} (v : pvec A) (k : N) : pvec A * option A :=
+  match pv_get v k, pv_get v (vlen v - 1) with
+  | Some x, Some l => ({| vlen := vlen v - 1; vmap := NM.add k l (vmap v) |}, Some x)
+  | _, _ => (v, None)
+  end.
+
+Definition pv_clear {A} (v : pvec A) : pvec A := {| vlen := 0; vmap := vmap v |}.
+
+(* the elements at positions 0 .. len-1 (missing entries skipped) *)
+Fixpoint pv_elems_aux {A} (m : NM.t A) (k : N) (n : nat) : list A :=
+  match n with
+  | O => []
+  | S n' => match NM.find k m with Some x => x :: pv_elems_aux m (k + 1) n' | None => pv_elems_aux m (k + 1) n' end
+  end.
+Definition pv_elems {A} (v : pvec A) : list A := pv_elems_aux (vmap v) 0 (N.to_nat (vlen v)).
+
+(* tokens: component values with an identity.  uid 0 = the unit value of the
+   null storage; uid [default_uid] = a value made by Default::default() *)
+Definition tok := (N * Z)%type.
+Definition default_uid : N := 1099511627776.      (* 2^40 *)
+Definition default_tok : tok := (default_uid, 0%Z).
+Definition unit_tok : tok := (0, 0%Z).
+
+Lemma find_add {A} (m : NM.t A) i j v : NM.find j (NM.add i v m) = if N.eq_dec i j then Some v else NM.find j m.
+Proof. destruct (N.eq_dec i j) as [->|H]; [apply NMF.add_eq_o; reflexivity | apply NMF.add_neq_o; assumption]. Qed.
+
+Lemma find_remove {A} (m : NM.t A) i j : NM.find j (NM.remove i m) = if N.eq_dec i j then None else NM.find j m.
+Proof. destruct (N.eq_dec i j) as [->|H]; [apply NMF.remove_eq_o; reflexivity | apply NMF.remove_neq_o; assumption]. Qed.
+
+Lemma find_empty {A} j : NM.find j (NM.empty A) = None.
+Proof. apply NMF.empty_o. Qed.
